@@ -32,7 +32,7 @@ def jobs(pid, tier):
         J.append(Job('let', dict(N=3, L=3, kinds=['rename']), need_outcomes=['returned:rename']))
         J.append(Job('copy', dict(N=4, L=3, NT=2, extra=0, variants=['copy_bdd']), need_outcomes=['returned:copy_bdd']))
         if not q:
-            J.append(Job('k7_swap', dict(N=5, L=3, x=0, K=3), need_outcomes=['swapped']))
+            J.append(Job('k7_swap', dict(N=4, L=3, x=1, K=2), need_outcomes=['swapped']))
             J.append(Job('k8_gc', dict(N=5, L=3, roots=0, nondet=False), need_outcomes=['collected']))
             J.append(Job('k3_ite', dict(N=3, L=2, K=2), need_outcomes=['created']))
     if pid == 'C03':
@@ -83,7 +83,7 @@ def jobs(pid, tier):
         J.append(Job('sched', dict(L=4, kinds=['to_pairs', 'to_order']), need_outcomes=['done:to_pairs']))
         if not q:
             J.append(Job('k7_swap', dict(N=5, L=3, x=0, K=3), need_outcomes=['swapped']))
-            J.append(Job('k7_swap', dict(N=5, L=3, x=1, K=3, by='reversed'), need_outcomes=['swapped']))
+            J.append(Job('k7_swap', dict(N=4, L=3, x=1, K=2, by='reversed'), need_outcomes=['swapped']))
             J.append(Job('sched', dict(L=4, kinds=['sift', 'to_order', 'to_pairs']), need_outcomes=['done:sift']))
     if pid == 'C08':
         J.append(Job('autoref_life', dict(N=4, L=2), need_outcomes=['done:' + o for o in
@@ -93,6 +93,7 @@ def jobs(pid, tier):
         # ledger read as "number of live Functions", plus a live handle's views across a swap
         J.append(Job('k7_swap', dict(N=4, L=2, x=0, K=2, handle=True), need_outcomes=['swapped']))
         J.append(Job('k8_gc', dict(N=4, L=2, roots=0, nondet=True), need_outcomes=['collected']))
+        J.append(Job('k8_gc', dict(N=4, L=3, roots=0, nondet=False, shutdown=True), need_outcomes=['shutdown']))
     if pid == 'C09':
         J.append(Job('dynreorder', dict(N=3, L=2, fires=1 if q else 2), need_outcomes=['fired:ite', 'quiet:ite', 'fired:quantify']))
         # the reorder contract with a real change of order (every permutation), decorated operations
